@@ -70,6 +70,49 @@ pub fn read_emitted(path: &str) -> Vec<Value> {
         .collect()
 }
 
+/// Stream the emitted behaviours through `f` in bounded batches (a thorough-tier generator
+/// output is gigabytes; parsed JSON values are ten times that), in parallel within a batch.
+pub fn process_emitted<F>(path: &str, f: F) -> Report
+where
+    F: Fn(&Value, &mut Report) + Sync,
+{
+    let file = std::fs::File::open(path).unwrap_or_else(|e| {
+        eprintln!("cannot open {path}: {e}");
+        std::process::exit(2)
+    });
+    let mut total = Report::default();
+    let mut batch: Vec<String> = Vec::with_capacity(20_000);
+    let run = |batch: &Vec<String>| -> Report {
+        batch
+            .par_iter()
+            .fold(Report::default, |mut r, l| {
+                let v: Value = if l.starts_with('{') {
+                    serde_json::from_str::<Value>(l).expect("bad json line")
+                } else {
+                    let inner: String = serde_json::from_str(l).expect("bad TLC string literal");
+                    serde_json::from_str::<Value>(&inner).expect("bad emitted json")
+                };
+                f(&v, &mut r);
+                r
+            })
+            .reduce(Report::default, Report::merge)
+    };
+    for l in BufReader::new(file).lines() {
+        let l = l.unwrap();
+        if l.starts_with("\"{") || l.starts_with('{') {
+            batch.push(l);
+            if batch.len() >= 20_000 {
+                total = total.merge(run(&batch));
+                batch.clear();
+            }
+        }
+    }
+    if !batch.is_empty() {
+        total = total.merge(run(&batch));
+    }
+    total
+}
+
 fn list(m: &HashMap<String, String>, k: &str, default: &str) -> Vec<String> {
     m.get(k).map(|s| s.as_str()).unwrap_or(default).split(',').filter(|s| !s.is_empty()).map(|s| s.to_string()).collect()
 }
@@ -85,60 +128,44 @@ fn main() {
     let t0 = std::time::Instant::now();
     let rep: Report = match (cmd.as_str(), m.get("family").map(|s| s.as_str())) {
         ("replay", Some("moments")) => {
-            let vals = read_emitted(&m["input"]);
-            let want = moments::Want {
+                        let want = moments::Want {
                 prop: m["prop"].clone(),
                 types: list(&m, "types", "Mean,Variance,Skewness,Kurtosis,Moments4,M4,M5,M6,M8,M10"),
                 embeddings: exact::embeddings(&list(&m, "embeddings", "E0").iter().map(|s| s.as_str()).collect::<Vec<_>>()),
             };
-            vals.par_iter()
-                .fold(Report::default, |mut r, v| {
-                    moments::process_line(v, &want, &mut r);
-                    r
-                })
-                .reduce(Report::default, Report::merge)
+            process_emitted(&m["input"], |v, r| {
+                moments::process_line(v, &want, r);
+            })
         }
         ("replay", Some(fam @ ("weighted" | "covariance"))) => {
-            let vals = read_emitted(&m["input"]);
-            let weighted = fam == "weighted";
+                        let weighted = fam == "weighted";
             let want = pairs::PWant {
                 prop: m["prop"].clone(),
                 types: list(&m, "types", "WeightedMean,WeightedMeanWithError,Covariance"),
                 embs: pairs::parse_pair_embs(m.get("embeddings").map(|s| s.as_str()).unwrap_or(if weighted { "E0:W0" } else { "E0:E0" }), weighted),
                 family: fam.to_string(),
             };
-            vals.par_iter()
-                .fold(Report::default, |mut r, v| {
-                    pairs::process_line(v, &want, &mut r);
-                    r
-                })
-                .reduce(Report::default, Report::merge)
+            process_emitted(&m["input"], |v, r| {
+                pairs::process_line(v, &want, r);
+            })
         }
         ("replay", Some("minmax")) => {
-            let vals = read_emitted(&m["input"]);
-            let want = minmax::MWant {
+                        let want = minmax::MWant {
                 prop: m["prop"].clone(),
                 scales: list(&m, "embeddings", "1").iter().map(|s| s.parse::<f64>().unwrap()).collect(),
             };
-            vals.par_iter()
-                .fold(Report::default, |mut r, v| {
-                    minmax::process_line(v, &want, &mut r);
-                    r
-                })
-                .reduce(Report::default, Report::merge)
+            process_emitted(&m["input"], |v, r| {
+                minmax::process_line(v, &want, r);
+            })
         }
         ("replay", Some("quantile")) => {
-            let vals = read_emitted(&m["input"]);
-            let want = quantile::QWant {
+                        let want = quantile::QWant {
                 prop: m["prop"].clone(),
                 embeddings: exact::embeddings(&list(&m, "embeddings", "E0").iter().map(|s| s.as_str()).collect::<Vec<_>>()),
             };
-            vals.par_iter()
-                .fold(Report::default, |mut r, v| {
-                    quantile::process_line(v, &want, &mut r);
-                    r
-                })
-                .reduce(Report::default, Report::merge)
+            process_emitted(&m["input"], |v, r| {
+                quantile::process_line(v, &want, r);
+            })
         }
         ("record", Some("quantile")) => {
             let mut r = Report::default();
@@ -148,14 +175,10 @@ fn main() {
             r
         }
         ("replay", Some("histogram")) => {
-            let vals = read_emitted(&m["input"]);
-            let want = hist::HWant { prop: m["prop"].clone() };
-            vals.par_iter()
-                .fold(Report::default, |mut r, v| {
-                    hist_types::process_line(v, &want, &mut r);
-                    r
-                })
-                .reduce(Report::default, Report::merge)
+                        let want = hist::HWant { prop: m["prop"].clone() };
+            process_emitted(&m["input"], |v, r| {
+                hist_types::process_line(v, &want, r);
+            })
         }
         ("record", Some("histogram")) => {
             let mut r = Report::default();
@@ -166,13 +189,9 @@ fn main() {
             r
         }
         ("replay", Some("ingest")) => {
-            let vals = read_emitted(&m["input"]);
-            vals.par_iter()
-                .fold(Report::default, |mut r, v| {
-                    ingest::process_line(v, &mut r);
-                    r
-                })
-                .reduce(Report::default, Report::merge)
+                        process_emitted(&m["input"], |v, r| {
+                ingest::process_line(v, r);
+            })
         }
         ("record", Some("len")) => {
             let mut r = Report::default();
